@@ -87,6 +87,31 @@ def errdisc(ctx, fn):
             ctx.ob("ERRDISC", f"{fn}|{short}|returned", True, f"{callee} result is returned to the caller", b.file, None)
             continue
         cons = consumers(b, d["l"])
+        # a plain copy/move of the Result into another local (e.g. the return slot of an inlined helper) is not a
+        # consumption: follow it to the consumers of the copy
+        for _ in range(4):
+            moved = []
+            rest = []
+            for kind, what, bb_ in cons:
+                whole = []
+                if kind == "use" and what == "use":
+                    for bi_, si_, s_ in b.stmts():
+                        q_ = op_place(s_["rv"]["a"]) if s_["k"] == "assign" and s_["rv"]["k"] == "use" else None
+                        if bi_ == bb_ and q_ is not None and q_["l"] == d["l"] and not q_["p"] and not s_["lhs"]["p"]:
+                            whole.append(s_["lhs"]["l"])
+                if whole:
+                    moved += whole
+                else:
+                    rest.append((kind, what, bb_))
+            if not moved:
+                break
+            cons = rest
+            for l_ in moved:
+                if l_ == 0:
+                    cons.append(("call", "returned::Try>::branch", -1))
+                else:
+                    cons += consumers(b, l_)
+                d = dict(d, l=l_)
         kinds = set()
         for kind, what, _bb in cons:
             if kind == "call" and what.endswith("Try>::branch"):
@@ -164,6 +189,13 @@ def run(ctx):
 
     # ---- ERRDISC
     n = 0
-    for fn in ("patch::ZiPatch::apply", "patch::wipe", "patch::wipe_from_offset", "patch::write_empty_file_block_at"):
+    # apply and every hand-written helper of the patch module it reaches (helpers that were inlined are covered by
+    # their callers; a helper that no longer exists is not an error)
+    helpers = sorted({d for d in defs if d.startswith("patch::") and "::{closure" not in d and d in prog.raw_bodies and not prog.raw_bodies[d].user_derived() and not prog.raw_bodies[d].j.get("impl_trait")} | {"patch::ZiPatch::apply"})
+    for fn in helpers:
+        if fn.startswith("patch::ZiPatch::") and fn != "patch::ZiPatch::apply":
+            continue
+        if getattr(prog, "_inliner", None) is not None and prog._inliner.inlinable(fn):
+            continue
         n += errdisc(ctx, fn)
     ctx.floor("ERRDISC", "I/O results produced in apply and its helpers", n, 30)
